@@ -55,10 +55,16 @@ UNIVERSES = ["pauli1", "pauli2", "boson"]
 
 class V:
     """a value of the expression language with the Python source that produced it"""
-    __slots__ = ("src", "val", "depth", "_den", "_scale")
+    __slots__ = ("src", "val", "depth", "_den", "_scale", "_wf")
 
     def __init__(self, src, val, depth):
-        self.src, self.val, self.depth, self._den, self._scale = src, val, depth, None, None
+        self.src, self.val, self.depth, self._den, self._scale, self._wf = src, val, depth, None, None, None
+
+    def wf(self, uni):
+        """is the value itself well-formed? (a malformed operand is reported where it is produced, not again downstream)"""
+        if self._wf is None:
+            self._wf = wf_value(self.val, uni) is None
+        return self._wf
 
     @property
     def is_op(self):
@@ -443,7 +449,7 @@ def w_expr(case, led):
             if kind(r) != want and agg["type"] is None:
                 agg["type"] = (f"`{src}` is a {type(r).__name__}, expected {want}", key, fields, rep)
             w = wf_value(r, uni)
-            if w and agg["wf"] is None:
+            if w and agg["wf"] is None and a.wf(uni) and b.wf(uni):
                 agg["wf"] = (f"`{src}`: {w}", key, fields, rep)
             if (A.vsig(a.val) != sa or A.vsig(b.val) != sb) and agg["frame"] is None:
                 agg["frame"] = (f"`{src}` changed an operand", key, fields, rep)
@@ -492,7 +498,7 @@ def w_expr(case, led):
         want = "Op" if (a.is_op and code.split("[")[0] in ("neg", "lmul", "rmul")) else "OpSum"
         led.check(kind(r) == want, f"post:{fn}:type", fn, f"`{src}` is a {type(r).__name__}, expected {want}", key + ("type",), fields, rep)
         w = wf_value(r, uni)
-        led.check(w is None, f"post:{fn}:wellformed", fn, f"`{src}`: {w}", key + ("wf",), fields, rep)
+        led.check(w is None or not a.wf(uni), f"post:{fn}:wellformed", fn, f"`{src}`: {w}", key + ("wf",), fields, rep)
         led.check(A.vsig(a.val) == sa, f"frame:{fn}:operand", fn, f"`{src}` changed its operand", key + ("frame",), fields, rep)
         if code == "copy":
             led.check(r is not a.val and A.vsig(r) == sa, "post:OpSum.copy:independent_equal", fn, f"`{src}` is not an independent equal list",
